@@ -134,6 +134,7 @@ type Exec struct {
 	specMode  int
 	kfs       []*KnownFinding
 	protected []protEntry
+	cellClosures map[string]*Closure // cell pointer term -> the closure stored there (single-assignment cells)
 }
 
 func (x *Exec) note(format string, args ...any) {
